@@ -578,6 +578,91 @@ defined and every node is finite -/
 example : decode binary32 0x3f800001 = .fin false (2 ^ 23 + 1) (-23) ∧
     (mul_dekker_f32.eval (fun _ _ => none) [0x3f800001, 0x3f800001]).isSome = true := by decide +kernel
 
+/-! ### The copies compute the same bit patterns -/
+
+theorem g16 : FAVerif.FP.gt ⟨11, 5⟩ 31743 31744 = false := by decide +kernel
+theorem g32a : FAVerif.FP.gt ⟨24, 8⟩ 2139095039 2139095040 = false := by decide +kernel
+theorem g32b : FAVerif.FP.gt ⟨24, 8⟩ 2139095039 2123789977 = true := by decide +kernel
+theorem g64a : FAVerif.FP.gt ⟨53, 11⟩ 9218868437227405311 9214871658872686752 = true := by decide +kernel
+
+set_option maxHeartbeats 2000000 in
+/-- **The copies are the same computation** (f16): for EVERY input pattern (bit for bit, NaN and infinities included) the
+`apmath` building blocks return what the `floating_point_algorithms` ones return, and the copies inside
+`algorithms.py` (used by complex log/log1p) return what the `utils` ones return — their dtype-dispatch `select`s fold.
+Every theorem about one of them therefore holds for its copy. -/
+theorem copies_agree_f16 (lib : Libm) (x y : Nat) :
+    apmath_two_sum_f16.eval lib [x, y] = add_2sum_f16.eval lib [x, y] ∧
+    apmath_quick_two_sum_f16.eval lib [x, y] = add_2sum_fast_f16.eval lib [x, y] ∧
+    apmath_split_f16.eval lib [x] = split_veltkamp_scale_f16.eval lib [x] ∧
+    apmath_two_prod_f16.eval lib [x, y] = mul_dekker_scale_f16.eval lib [x, y] ∧
+    alg_split_veltkamp_f16.eval lib [x] = utils_split_veltkamp_f16.eval lib [x] ∧
+    alg_square_dekker_f16.eval lib [x] = utils_square_dekker_f16.eval lib [x] ∧
+    alg_add_2sum_f16.eval lib [x, y] = add_2sum_f16.eval lib [x, y] ∧
+    alg_add_2sum_fast_f16.eval lib [x, y] = add_2sum_fast_f16.eval lib [x, y] := by
+  refine ⟨?_, ?_, ?_, ?_, ?_, ?_, ?_, ?_⟩
+  · simp [Prog.eval, apmath_two_sum_f16, add_2sum_f16, evalNodes, evalNode]
+  · simp [Prog.eval, apmath_quick_two_sum_f16, add_2sum_fast_f16, evalNodes, evalNode]
+  · simp [Prog.eval, apmath_split_f16, split_veltkamp_scale_f16, evalNodes, evalNode]
+  · simp [Prog.eval, apmath_two_prod_f16, mul_dekker_scale_f16, evalNodes, evalNode]
+  · simp [Prog.eval, alg_split_veltkamp_f16, utils_split_veltkamp_f16, evalNodes, evalNode, g16, b2n]
+    simp [FAVerif.SoftRound.add_comm' ⟨11, 5⟩]
+  · simp [Prog.eval, alg_square_dekker_f16, utils_square_dekker_f16, evalNodes, evalNode, g16, b2n]
+    simp only [FAVerif.SoftRound.add_comm' ⟨11, 5⟩, FAVerif.SoftRound.mul_comm' ⟨11, 5⟩]
+  · simp [Prog.eval, alg_add_2sum_f16, add_2sum_f16, evalNodes, evalNode]
+  · simp [Prog.eval, alg_add_2sum_fast_f16, add_2sum_fast_f16, evalNodes, evalNode]
+
+set_option maxHeartbeats 2000000 in
+/-- **The copies are the same computation** (f32): for EVERY input pattern (bit for bit, NaN and infinities included) the
+`apmath` building blocks return what the `floating_point_algorithms` ones return, and the copies inside
+`algorithms.py` (used by complex log/log1p) return what the `utils` ones return — their dtype-dispatch `select`s fold.
+Every theorem about one of them therefore holds for its copy. -/
+theorem copies_agree_f32 (lib : Libm) (x y : Nat) :
+    apmath_two_sum_f32.eval lib [x, y] = add_2sum_f32.eval lib [x, y] ∧
+    apmath_quick_two_sum_f32.eval lib [x, y] = add_2sum_fast_f32.eval lib [x, y] ∧
+    apmath_split_f32.eval lib [x] = split_veltkamp_scale_f32.eval lib [x] ∧
+    apmath_two_prod_f32.eval lib [x, y] = mul_dekker_scale_f32.eval lib [x, y] ∧
+    alg_split_veltkamp_f32.eval lib [x] = utils_split_veltkamp_f32.eval lib [x] ∧
+    alg_square_dekker_f32.eval lib [x] = utils_square_dekker_f32.eval lib [x] ∧
+    alg_add_2sum_f32.eval lib [x, y] = add_2sum_f32.eval lib [x, y] ∧
+    alg_add_2sum_fast_f32.eval lib [x, y] = add_2sum_fast_f32.eval lib [x, y] := by
+  refine ⟨?_, ?_, ?_, ?_, ?_, ?_, ?_, ?_⟩
+  · simp [Prog.eval, apmath_two_sum_f32, add_2sum_f32, evalNodes, evalNode]
+  · simp [Prog.eval, apmath_quick_two_sum_f32, add_2sum_fast_f32, evalNodes, evalNode]
+  · simp [Prog.eval, apmath_split_f32, split_veltkamp_scale_f32, evalNodes, evalNode]
+  · simp [Prog.eval, apmath_two_prod_f32, mul_dekker_scale_f32, evalNodes, evalNode]
+  · simp [Prog.eval, alg_split_veltkamp_f32, utils_split_veltkamp_f32, evalNodes, evalNode, g32a, g32b, b2n]
+    simp [FAVerif.SoftRound.add_comm' ⟨24, 8⟩]
+  · simp [Prog.eval, alg_square_dekker_f32, utils_square_dekker_f32, evalNodes, evalNode, g32a, g32b, b2n]
+    simp only [FAVerif.SoftRound.add_comm' ⟨24, 8⟩, FAVerif.SoftRound.mul_comm' ⟨24, 8⟩]
+  · simp [Prog.eval, alg_add_2sum_f32, add_2sum_f32, evalNodes, evalNode]
+  · simp [Prog.eval, alg_add_2sum_fast_f32, add_2sum_fast_f32, evalNodes, evalNode]
+
+set_option maxHeartbeats 2000000 in
+/-- **The copies are the same computation** (f64): for EVERY input pattern (bit for bit, NaN and infinities included) the
+`apmath` building blocks return what the `floating_point_algorithms` ones return, and the copies inside
+`algorithms.py` (used by complex log/log1p) return what the `utils` ones return — their dtype-dispatch `select`s fold.
+Every theorem about one of them therefore holds for its copy. -/
+theorem copies_agree_f64 (lib : Libm) (x y : Nat) :
+    apmath_two_sum_f64.eval lib [x, y] = add_2sum_f64.eval lib [x, y] ∧
+    apmath_quick_two_sum_f64.eval lib [x, y] = add_2sum_fast_f64.eval lib [x, y] ∧
+    apmath_split_f64.eval lib [x] = split_veltkamp_scale_f64.eval lib [x] ∧
+    apmath_two_prod_f64.eval lib [x, y] = mul_dekker_scale_f64.eval lib [x, y] ∧
+    alg_split_veltkamp_f64.eval lib [x] = utils_split_veltkamp_f64.eval lib [x] ∧
+    alg_square_dekker_f64.eval lib [x] = utils_square_dekker_f64.eval lib [x] ∧
+    alg_add_2sum_f64.eval lib [x, y] = add_2sum_f64.eval lib [x, y] ∧
+    alg_add_2sum_fast_f64.eval lib [x, y] = add_2sum_fast_f64.eval lib [x, y] := by
+  refine ⟨?_, ?_, ?_, ?_, ?_, ?_, ?_, ?_⟩
+  · simp [Prog.eval, apmath_two_sum_f64, add_2sum_f64, evalNodes, evalNode]
+  · simp [Prog.eval, apmath_quick_two_sum_f64, add_2sum_fast_f64, evalNodes, evalNode]
+  · simp [Prog.eval, apmath_split_f64, split_veltkamp_scale_f64, evalNodes, evalNode]
+  · simp [Prog.eval, apmath_two_prod_f64, mul_dekker_scale_f64, evalNodes, evalNode]
+  · simp [Prog.eval, alg_split_veltkamp_f64, utils_split_veltkamp_f64, evalNodes, evalNode, g64a, b2n]
+    simp [FAVerif.SoftRound.add_comm' ⟨53, 11⟩]
+  · simp [Prog.eval, alg_square_dekker_f64, utils_square_dekker_f64, evalNodes, evalNode, g64a, b2n]
+    simp only [FAVerif.SoftRound.add_comm' ⟨53, 11⟩, FAVerif.SoftRound.mul_comm' ⟨53, 11⟩]
+  · simp [Prog.eval, alg_add_2sum_f64, add_2sum_f64, evalNodes, evalNode]
+  · simp [Prog.eval, alg_add_2sum_fast_f64, add_2sum_fast_f64, evalNodes, evalNode]
+
 /-- Every regenerated program is well formed (arguments refer to earlier nodes, inputs in range). -/
 theorem generated_wf : ∀ p ∈ FAVerif.Gen.C10.all, p.2.wf = true := by decide +kernel
 
